@@ -110,15 +110,6 @@ type caseRec struct {
 	Want    string   `json:"want"`
 }
 
-// muted (development aid, C03_MUTE=prefix,prefix): violation classes to count
-// instead of report, to look past a finding; such a run is marked incomplete.
-var muted = func() []string {
-	if v := os.Getenv("C03_MUTE"); v != "" {
-		return strings.Split(v, ",")
-	}
-	return nil
-}()
-
 type counters struct {
 	histRuns, blocks, heights, keys, finds, seeks, storeSeeks, gets, proofsOK, proofsRefused, crossProofs,
 	histInv, histInvHalt, liveInv, deepRoots, nonRetained vk.Counter
@@ -160,13 +151,6 @@ func (c *run) fail(oracle, class string, s *snap, call, got, want string) {
 		return
 	}
 	c.reported[oracle+":"+class] = true
-	for _, m := range muted {
-		if strings.HasPrefix(oracle+":"+class, m) {
-			c.cx.r.Outcome("muted:" + oracle + ":" + class)
-			c.cx.r.Capped() // a development run, never a complete one
-			return
-		}
-	}
 	c.nfail[oracle]++
 	if len(got) > 600 {
 		got = got[:600] + "..."
@@ -460,7 +444,7 @@ func (c *run) seek(s *snap, prefix []byte, stop int, retained bool) {
 
 // storeSeek checks mpt.TrieStore.Seek (what historic invocations read through).
 func (c *run) storeSeek(s *snap, ts *mpt.TrieStore, prefix, start []byte, backwards bool) {
-	want, ext := s.expectSeek(prefix, start, backwards)
+	want := s.expectSeek(prefix, start, backwards)
 	var got []kv
 	c.cx.c.storeSeeks.Inc()
 	pfx := append([]byte{byte(storage.STStorage)}, prefix...)
@@ -474,10 +458,6 @@ func (c *run) storeSeek(s *snap, ts *mpt.TrieStore, prefix, start []byte, backwa
 	if pan != nil {
 		c.fail("O1-store-seek", seekClass(start, backwards), s, call, fmt.Sprintf("panic: %v", pan), kvsString(want))
 		return
-	}
-	if len(ext) > 0 && len(got) >= len(ext) && sameKVs(got[:len(ext)], ext) {
-		got = got[len(ext):]
-		c.cx.r.Outcome("store-seek:backwards-start-includes-extensions")
 	}
 	if !sameKVs(got, want) {
 		c.fail("O1-store-seek", seekClass(start, backwards), s, call, kvsString(got), kvsString(want))
@@ -694,7 +674,16 @@ func (c *run) crossHeight(from uint32) {
 
 func (c *run) historic(s *snap, retained bool) {
 	next := s.H + 1 // GetTestHistoricVM takes the height of the block that would be processed on top of state h
+	if c.v.GC {
+		// docs/rpc.md: with RemoveUntraceableBlocks the behaviour of historic calls
+		// is undefined ("limitations on available data"): a refusal is accepted at
+		// any height, a HALT with other data is not.
+		retained = false
+	}
 	for _, q := range s.Live {
+		if c.nfail["O4-historic"]+c.nfail["O4-historic-nonretained"] >= 3 {
+			return
+		}
 		var (
 			res  string
 			halt bool
@@ -838,8 +827,8 @@ func TestCheck(t *testing.T) {
 		"rule":                           "every history = preamble + depth blocks of the alphabet (all K^depth) per family; state = (family, node variant, height, state root); exhaustive O1 once per distinct (family, root), the other oracles at every height of every history",
 	}, []string{
 		"map_h is read from the live node through Blockchain.SeekStorage over all native ids and ids 1..6 (the flat storage, not the trie)",
-		"FindStates/SeekStates/TrieStore.Seek range semantics are taken from their doc comments; for an empty result both ErrNotFound and an empty list are accepted; backwards Seek with a Start may or may not deliver keys extending prefix+start",
-		"pruned variants (RemoveUntraceableBlocks+GC after every flush, KeepOnlyLatestState) are held to the oracles for heights >= height-MaxTraceableBlocks (latest: the top height); below that an error / panic / FAULT or data equal to map_h is accepted, different data is not",
+		"FindStates/SeekStates/TrieStore.Seek range semantics are taken from their doc comments (ordered map: forwards = keys >= prefix+start ascending, backwards = keys <= prefix+start descending); for an empty FindStates result both ErrNotFound and an empty list are accepted",
+		"pruned variants (RemoveUntraceableBlocks+GC after every flush, KeepOnlyLatestState) are held to O1-O3 for heights >= height-MaxTraceableBlocks (latest: the top height); below that an error / panic / early end of a listing or data equal to map_h is accepted, different data is not; historic invocations on them may be refused at any height (docs/rpc.md: undefined with RemoveUntraceableBlocks, unsupported with KeepOnlyLatestState) but must not HALT with other data",
 		"historic invocations are compared on VM state, stack, gas consumed and fault message; scripts do not read time",
 	})
 }
